@@ -101,7 +101,7 @@ def bootstrap(need_dynamo: bool = False) -> None:
     warnings.filterwarnings("ignore")
     import logging
 
-    logging.disable(logging.WARNING)
+    logging.disable(logging.CRITICAL)
     import torch
 
     torch.set_num_threads(1)
